@@ -110,6 +110,12 @@ add('C16', 'The bodies of cleanup_functools_wrapper.__enter__/__exit__, autoforw
     'asynchronous exceptions between two statements are outside the fault model; statements after the with block that fall outside the IR subset are abstracted to one oracle step after a syntactic whitelist check (range recorded in the evidence).',
     'Coq proof by exhaustive enumeration over a model regenerated from the source + fault injection on the real code', category='proof')
 
+add('C20', 'Gallina model of support.bind_callsig / sort_callsigs / make_up_callsigs (from the code: zip/enumerate, for/else, the three loops) and a value-level CPython binder, read_sig / func_code at token level '
+    '(Model/Support.v); Props/C20.v: C20_bind (model of bind_callsig = binder, same mapping, all inputs), closed form of the loops, sort partition, make_up_callsigs completeness (all inputs), token-level round trip '
+    'bounded to U(2,{a,b}); ~117k evaluations per run: s(str(sig)) / func_from_sig / f round trips for every read_sig option, bind_callsig against really calling a def, against the model (inside Coq).',
+    'round trip proved only for the bounded universe stated in the theorem (token level; the regular expression, str.split and the compiler are tied by the differential run); signatures with positional-only parameters are excluded from the modifiers spellings as in the property.',
+    'Coq proof over a Gallina model + in-Coq evaluation correspondence + differential execution against CPython')
+
 
 def main():
     props = [json.loads(l)['id'] for l in open(os.path.join(VERIF, 'properties.jsonl'))]
